@@ -329,4 +329,33 @@ Proof.
     eapply WT_step; [unfold jt_of; rewrite Hb'; reflexivity|exact Hnth'|exact Hr'|exact Hrun'|].
     apply IH; [exact Hm|eapply SRun_reached_orig; eauto|exact He1].
 Qed.
+
+(* the same for "every decision list can be walked without getting stuck" (C06 reads it with strict = true) *)
+Theorem ctrace_refines : forall n e ds,
+  CTrace h r strict n e ds ->
+  forall e', Old n -> (exists b p, find h n = Some b /\ n_kind b = KOrig p) -> E e e' ->
+  CTrace h' r' strict n e' ds.
+Proof.
+  induction 1 as [n e|n e d ds l Hj Hnth|n e d ds l t c Hj Hnth Hr Hs|n e d ds l t c m e1 Hj Hnth Hr Hrun Hrest IH];
+    intros e' Hn [b [p [Hb Hk]]] He; [apply CT_nil| | |];
+    destruct (Hold n Hn) as [b0 [b' [Hb0 [Hb' Hc]]]]; rewrite Hb in Hb0; injection Hb0 as <-;
+    unfold Compat in Hc; rewrite Hk in Hc; destruct (n_kind b') as [p'| | | |] eqn:Hk'; try contradiction;
+    destruct Hc as [Hlen Hedges];
+    unfold jt_of in Hj; rewrite Hb in Hj; injection Hj as Hj.
+  - apply CT_bad with (l := n_jt b'); [unfold jt_of; rewrite Hb'; reflexivity|].
+    apply nth_error_None. rewrite <- Hlen. apply nth_error_None. rewrite Hj. exact Hnth.
+  - rewrite <- Hj in Hnth.
+    destruct (nth_error (n_jt b') d) as [t'|] eqn:Hnth'.
+    2:{ apply nth_error_None in Hnth'. rewrite <- Hlen in Hnth'. apply nth_error_None in Hnth'. congruence. }
+    destruct (edge_forward n t t' e e' c Stopped (Hedges d t t' Hnth Hnth') He Hr Hs) as [c' [o' [Hr' [Hrun' HO]]]].
+    destruct o'; try contradiction.
+    eapply CT_stop; [unfold jt_of; rewrite Hb'; reflexivity|exact Hnth'|exact Hr'|exact Hrun'].
+  - rewrite <- Hj in Hnth.
+    destruct (nth_error (n_jt b') d) as [t'|] eqn:Hnth'.
+    2:{ apply nth_error_None in Hnth'. rewrite <- Hlen in Hnth'. apply nth_error_None in Hnth'. congruence. }
+    destruct (edge_forward n t t' e e' c (Reached m e1) (Hedges d t t' Hnth Hnth') He Hr Hrun) as [c' [o' [Hr' [Hrun' HO]]]].
+    destruct o' as [m' e1'| |]; try contradiction. destruct HO as [-> [He1 Hm]].
+    eapply CT_step; [unfold jt_of; rewrite Hb'; reflexivity|exact Hnth'|exact Hr'|exact Hrun'|].
+    apply IH; [exact Hm|eapply SRun_reached_orig; eauto|exact He1].
+Qed.
 End Refine.
